@@ -382,3 +382,46 @@ func IsZeroValue(v ssa.Value) bool {
 	}
 	return false
 }
+
+// RetVal returns operand i of a Return, looking through the result-slot spill that go/ssa
+// introduces in functions with defer ("*slot = v; rundefers; t = *slot; return t").
+func RetVal(ret *ssa.Return, i int) ssa.Value {
+	v := ret.Results[i]
+	ld, ok := v.(*ssa.UnOp)
+	if !ok || ld.Op != token.MUL {
+		return v
+	}
+	al, ok := ld.X.(*ssa.Alloc)
+	if !ok {
+		return v
+	}
+	// the latest store to the slot in this block before the load
+	var last ssa.Value
+	for _, in := range ret.Block().Instrs {
+		if in == ssa.Instruction(ld) {
+			break
+		}
+		if st, ok := in.(*ssa.Store); ok && st.Addr == ssa.Value(al) {
+			last = st.Val
+		}
+	}
+	if last != nil {
+		return last
+	}
+	// a single store anywhere (named result assigned once)
+	var only ssa.Value
+	n := 0
+	for _, r := range *al.Referrers() {
+		if st, ok := r.(*ssa.Store); ok && st.Addr == ssa.Value(al) {
+			n++
+			only = st.Val
+		}
+	}
+	if n == 1 {
+		return only
+	}
+	return v
+}
+
+// RetErr is the error operand (last result) of a Return, spill-resolved.
+func RetErr(ret *ssa.Return) ssa.Value { return RetVal(ret, len(ret.Results)-1) }
